@@ -32,6 +32,8 @@ type Contract struct {
 	Inline      bool
 	Trusted     bool
 	Lemma       bool
+	MathInt     bool // int arithmetic treated as mathematical (no int-range obligations): listed as an assumption
+	Rec         bool // recursive ghost function: uninterpreted symbol + one unfolding per application
 	FreshRes    bool
 	AllocBound  *Clause
 	Unroll      map[int]int
@@ -84,7 +86,7 @@ func hasTag(tags []string, p string) bool {
 	return false
 }
 
-var clauseHead = regexp.MustCompile(`^(func|requires|ensures|invariant|decreases|loop|safety|modifies|recv|nocap|inline|trusted|lemma|fresh|allocates|unroll)(\[[A-Za-z0-9,* ]*\])?(\s+|$)`)
+var clauseHead = regexp.MustCompile(`^(func|requires|ensures|invariant|decreases|loop|safety|modifies|recv|nocap|inline|trusted|lemma|fresh|allocates|unroll|rec|mathint)(\[[A-Za-z0-9,* ]*\])?(\s+|$)`)
 
 // parseContractFile extracts the //@ blocks of one file.
 func parseContractComments(fset *token.FileSet, f *ast.File) ([]*Contract, error) {
@@ -164,6 +166,10 @@ func parseContractComments(fset *token.FileSet, f *ast.File) ([]*Contract, error
 				cur.Trusted = true
 			case "lemma":
 				cur.Lemma = true
+			case "rec":
+				cur.Rec = true
+			case "mathint":
+				cur.MathInt = true
 			case "fresh":
 				cur.FreshRes = true
 			case "unroll":
